@@ -725,6 +725,9 @@ class FnTypes:
             return None
         if isinstance(cv, (tuple, list)) and cv and all(hasattr(x, "kind") and getattr(x, "kind") in ("class", "builtin", "ext") for x in cv):
             return [str(x.name).split(".")[-1] for x in cv]
+        # a single class held by a constant (`container_type = list` ... `isinstance(x, self.container_type)`)
+        if hasattr(cv, "kind") and getattr(cv, "kind") in ("class", "builtin", "ext") and not isinstance(e, ast.Name):
+            return [str(cv.name).split(".")[-1]]
         return None
 
     def local_class_tuple(self, name: str) -> Optional[List[str]]:
@@ -1242,8 +1245,12 @@ class FnTypes:
             if c is None:
                 return [Target("unknown", name="super().%s" % func.attr)]
             out = []
+            start = c
+            sargs = func.value.args
+            if len(sargs) == 2 and isinstance(sargs[0], ast.Name) and self.types.model.has_cls(sargs[0].id):
+                start = self.types.model.cls(sargs[0].id)       # super(Base, self): the search starts behind Base
             for s in c.subclasses():
-                r = s.lookup_after(c, func.attr)
+                r = s.lookup_after(start, func.attr)
                 if isinstance(r, FunctionInfo):
                     out.append(Target("fn", fn=r, via="super"))
                 elif isinstance(r, str):
